@@ -85,7 +85,10 @@ var c19LeavesFull = func() []*c19N {
 	for _, ch := range []rune{'"', '\\', '/', 0x00, 0x1F, 0x7F, 'é', '你', 0x1F600, 0x2028} {
 		out = append(out, c19Text(string(ch)))
 	}
-	for _, s := range []string{"\\\"", "\"\\", "\\\\", "\\/", "\x00\x1f", "😀 ", "<>&"} {
+	for _, s := range []string{"\\\"", "\"\\", "\\\\", "\\/", "\x00\x1f", "😀 ", "<>&",
+		// a backslash followed by what an escape looks like: texts that ARE the spelling of an
+		// escape, as in a JSON document stored as a text inside another one
+		`\u003c`, `\u0026\u003e`, `\n`} {
 		out = append(out, c19Text(s))
 	}
 	for _, f := range []float64{0, math.Copysign(0, -1), 1, -1, 0.1, 1e21, 1e-7, 5e-324, 1.7976931348623157e308} {
